@@ -370,6 +370,16 @@ def directed():
     out.append(sc(34, [{"t": "t1", "op": "begin"}, A("agg_start"), L(["k1"]), A("agg_retry"), L(["k1"]), A("agg_retry"), {"t": "t1", "op": "sleep", "wait": 45}, L(["k1"], rv=True), A("agg_cancel"), A("commit")]))
     out[-1]["managed_ttl"] = 25
     out.append(sc(13, B + [{"t": "t2", "op": "set", "k": "k1", "v": "c"}, A("agg_start"), A("fu_take"), {"t": "t2", "op": "commit"}, L(["k1"], v="fu_saved"), L(["k2"]), A("agg_retry"), L(["k2"], ce=True), A("agg_done"), A("rollback")]))
+    # the key-exists error of LockKeys' pre-loop (no request at all) is PREDICTED by the model (early_exists): an insert on a
+    # key this transaction already locked fails early iff the recorded existence says "exists" (k1..k3 exist, k4/k5 do not)
+    I = lambda k: {"t": "t1", "op": "insert", "k": k, "v": "i-" + k}
+    R2 = {"t": "t2", "op": "rollback"}
+    out.append(sc(90, B + [L(["k1"]), I("k1"), L(["k4"]), I("k4"), A("commit"), R2]))                       # plain lock: flag says exists (default) for both
+    out.append(sc(91, B + [L(["k1", "k4"], ce=True), I("k4"), I("k1"), L(["k1"]), A("commit"), R2]))          # existence checked: absent key inserts fine
+    out.append(sc(92, B + [A("agg_start"), L(["k1"]), I("k1"), A("agg_done"), I("k1"), A("rollback"), R2]))   # entry without values reads "not exists"; after Done the flag says exists
+    out.append(sc(93, B + [A("agg_start"), L(["k1"], rv=True), L(["k4"], rv=True), I("k4"), I("k1"), A("agg_done"), I("k4"), A("commit"), R2]))
+    out.append(sc(94, B + [A("agg_start"), L(["k2"], ce=True), A("agg_retry"), I("k2"), L(["k2"]), A("agg_done"), I("k2"), A("rollback"), R2]))  # previous-attempt entry consulted
+    out.append(sc(95, B + [I("k1"), L(["k1"]), I("k1"), {"t": "t1", "op": "set", "k": "k2", "v": "w"}, L(["k2"]), I("k2"), L(["k2"]), I("k2"), A("rollback"), R2]))  # failed insert reverted: flags survive only over an older buffered value
     return out
 
 
@@ -760,6 +770,9 @@ def main(tier, replay):
                         counts["lock:agg:expiry-decided-the-request"] = counts.get("lock:agg:expiry-decided-the-request", 0) + 1
                     cls = "lock:" + ("agg:" if x["bk"]["agg"] else "") + ("no-request" if not x["rpc_keys"] else "request") + (":" + p[-1] if p[-1] != "ok" else "")
                     counts[cls] = counts.get(cls, 0) + 1
+                    if x.get("early") is not None:      # the model's prediction was compared with the client on this call
+                        kk = "lock:early-key-exists:" + ("predicted-and-seen" if x["early"] else "predicted-none-and-none-seen")
+                        counts[kk] = counts.get(kk, 0) + 1
                     if exflag == "1":
                         counts["lock:agg:expiry-fed"] = counts.get("lock:agg:expiry-fed", 0) + 1
                     if p[-2] != "0":
